@@ -41,9 +41,14 @@ CLAUSES (statement / quantifier split into axes; facet.assertion that decides ea
                                               on ambiguous pairs
  S7 minimum image for every cell and mask     reference = fractional rounding for the frame's   ortho / tri / general (axis-permuted tilted
                                               OWN cell; positions also outside the cell         cell); mask-full / -partial / -open; sheared;
-                                                                                                offs-inside / -near / -far3 / -far8 / -far50
- S8 file: one header per frame, frames in     parse_written (T frames of 1 + N lines, header    frames1..4, frames-boundary-31..129
-    order without gap                         tokens id cn neighborlist)
+                                                                                                offs-inside / -near / -far3 / -far8 / -far50;
+                                                                                                oblique, whole-config-short-but-beyond-half-
+                                                                                                cell (every pair short in every Cartesian
+                                                                                                component, fractional coordinate > 1/2)
+ S8 file: one header per frame, frames in     parse_written (T frames of 1 + N lines, header    frames1..4, frames-boundary-31..129;
+    order without gap                         tokens id cn neighborlist); a frame written       schedule-repeated-frame, -timesteps-back
+                                              twice / time stamps going back: still one list
+                                              per frame in file order
  R1 reader: per particle id, cn then 0-based  compare_read vs neigh.reader_model (row of id k    syn-*-shuffled / -ordered; neighbor-read /
     indices (weights verbatim), id-indexed    at index k-1; -1 shift for neighbour lists only;  weight-read; cn0-rows; rows-boundary-*
     rows                                      integer dtype / float dtype)
@@ -61,7 +66,8 @@ CLAUSES (statement / quantifier split into axes; facet.assertion that decides ea
  Q1 argument representations (same values)    call_writer / make_snapshots apply case["rep"]    ppp-list/-tuple/-bool/-int32; N-np.int64/
                                                                                                 -np.int32; fn-custom / fn-subdir /
                                                                                                 default-args; pos-int64/-int32, cell-int64
-                                                                                                (crisp); types-*; rc-*, rcm-*
+                                                                                                (crisp); types-*; rc-*, rcm-*; ppp-float64;
+                                                                                                counts-np.int64/-np.int32 (reader)
  Q2 histories on the writers (state carried   run_writer: an earlier call with other contents   prior-other-object, prior-same-object-inplace
     between calls)                            (other object, or the SAME snapshot arrays
                                               mutated in place) must not influence the result;
@@ -102,9 +108,10 @@ RULE = ("writers: generated configurations (gas / lattice with and without jitte
         "outside, or unwrapped up to 3 / 8 / 50 cells away; N 1..40, plus seeded gases of 150..400 particles for the "
         "partition index, size boundaries N = 31..33, 49..51, 63..65, 99..101, 127..130, 199..201, 255..258 (thorough: "
         "499..501, 511..513, 999..1001, 1023..1025), 31..129 frames per file, and inhomogeneous systems of 150..400 "
-        "particles: clusters in a dilute background, voids, slabs and droplets with free surfaces; 1..4 frames, also "
-        "sheared: per-frame tilt factors) x {N_nn 1..N-1 | global r_cut in a gap of the reference distances | K x K "
-        "type-pair matrix, K 1..5, not symmetric} x argument representations (mask as list / tuple / bool / int32, N as "
+        "particles: clusters in a dilute background, voids, slabs and droplets with free surfaces, compact two-corner "
+        "clusters in tilted cells whose pairs are all short in Cartesian components but beyond the half cell; 1..4 "
+        "frames, also sheared: per-frame tilt factors, a frame repeated, time stamps going back) x {N_nn 1..N-1 | global r_cut in a gap of the reference distances | K x K "
+        "type-pair matrix, K 1..5, not symmetric} x argument representations (mask as list / tuple / bool / int32 / float, N as "
         "numpy integer, labels int32 / uint32 / uint8, integer r_cut / matrix where integral, Fortran / strided matrix, "
         "output file name) x an earlier call with other contents; crisp: integer coordinates (also as int64 / int32 "
         "arrays), power-of-two cells (also int64), integer cut-offs with planted Pythagorean pairs exactly at, just "
